@@ -94,6 +94,12 @@ impl MetadataClient for LocalMetadataClient {
     }
 
     async fn get_chunks(&self, range: TimeRange) -> Result<Vec<TimeIndexEntry>> {
+        // An inverted range is empty: it intersects no chunk
+        // (and BTreeMap::range panics on start > end)
+        if range.start > range.end {
+            return Ok(Vec::new());
+        }
+
         let mut results = Vec::new();
         let mut seen = std::collections::HashSet::new();
 
